@@ -453,7 +453,15 @@ pub fn format_number_jq_compat(raw: &[u8]) -> String {
     // pow()-underflowed zero -- see git history); now that this path is
     // string-based too, subnormal and normal magnitudes take the identical
     // call with no separate handling needed (code review, #1206).
-    assemble_scientific(sign, &mantissa_str, shifted_exp)
+    //
+    // Unlike the overflow/near-zero paths, `value` here is an ordinary finite
+    // number whose printed text must read back as the same `f64`, so the
+    // mantissa cannot stop at `MAX_RENDERED_MANTISSA_DIGITS`: a nonzero digit
+    // past the cap can be what breaks a round-to-nearest tie, and dropping it
+    // prints a number one ulp away from the literal. Same uncapped
+    // re-derivation as the decimal window above.
+    let full_mantissa_str = full_mantissa_if_capped(s, exp_pos, &mantissa_str, digit_count);
+    assemble_scientific(sign, &full_mantissa_str, shifted_exp)
 }
 
 /// jq mode's bare `Float` display: no forced decimal point, matching real
@@ -4006,6 +4014,24 @@ mod tests {
         assert_eq!(
             format_number_jq_compat(b"1.234567890123456789012345678901234567890123e50"),
             "1.234567890123456789012345678901234567890123E+50"
+        );
+    }
+
+    /// The same scientific branch must keep digits past
+    /// `MAX_RENDERED_MANTISSA_DIGITS` too. `2^-27 + 2^-80` lies exactly halfway
+    /// between two adjacent `f64`s, so a nonzero digit appended beyond the cap
+    /// decides the rounding: dropping it printed a number that reads back one
+    /// ulp below the literal.
+    #[test]
+    fn test_format_number_jq_compat_scientific_mantissa_past_render_cap_round_trips() {
+        let tie =
+            "0.00000000745058059692382895218061255302767487140869206996285356581211090087890625";
+        let literal = format!("{tie}{}1e0", "0".repeat(100_000));
+        let rendered = format_number_jq_compat(literal.as_bytes());
+        assert!(rendered.starts_with("7.45058059692382895218") && rendered.ends_with("01E-9"));
+        assert_eq!(
+            rendered.parse::<f64>().unwrap().to_bits(),
+            literal.parse::<f64>().unwrap().to_bits()
         );
     }
 
